@@ -56,4 +56,8 @@ def cells(tier):
     for carry in ([], ['roEdStart-text'], ['roEdStart-text', 'metaA'], ['metaNone'], ['metaBlank', 'fresh'], ['metaA', 'metaB', 'metaX'],
                   ['roChannel', 'roEdStart-text']):
         out.append(mcell(PID, 'exc', carry, T=60 if tier == 'quick' else 600))
+    # roMetadataReplace into a running order without stories
+    from .p_c04 import mcell as _mcell
+    for carry in ([], ['fresh'], ['metaX'], ['roEdStart', 'metaA']):
+        out.append(_mcell(PID, 'exc', carry, N=0, T=60 if tier == 'quick' else 600, gap=None))
     return out
